@@ -22,7 +22,7 @@ PROPS = {
     "C01": {
         "pf": True,
         "n": {"quick": 220, "thorough": 12000},
-        "cone": ["Bytes", "BytesLemmas", "Regex", "Generated", "Channel", "Session", "SessionLemmas", "Replay", "DecideLang", "GeneratedSkel", "WindowSrc", "SendInputSrc", "InteractiveSrcDefs", "PlatformTypes", "DecideLemmas", "ReadUntilSrc"],
+        "cone": ["Bytes", "BytesLemmas", "Regex", "Generated", "Channel", "Session", "SessionLemmas", "Replay", "DecideLang", "GeneratedSkel", "WindowSrc", "SendInputSrc", "InteractiveSrcDefs", "PlatformTypes", "DecideLemmas", "ReadUntilSrc", "ChanReadSrc"],
         "rx": True,
         "kernel_sample": {"quick": 6, "thorough": 20}, "kernel_maxlen": 2500,
         "rule": "generic.Driver SendCommands / SendCommand over the simulated transport and a CLI echo device: prompts drawn from the default "
@@ -179,7 +179,7 @@ PROPS = {
         "pf": True,
         "n": {"quick": 220, "thorough": 6000},
         "compare": "member",
-        "cone": ["Bytes", "Regex", "Generated", "Channel", "Network", "Replay", "SessionLemmas", "Netconf", "NcSession", "NcSessionLemmas", "NcSegLemmas", "NcExtraLemmas", "DecideLang", "GeneratedSkel", "InteractiveSrcDefs", "SendInputSrc", "BytesLemmas", "ChanTrace", "ChanTraceLemmas", "ChannelLemmas", "PlatformTypes", "Session", "RpcSrc", "DecideLemmas", "ReadUntilSrc"],
+        "cone": ["Bytes", "Regex", "Generated", "Channel", "Network", "Replay", "SessionLemmas", "Netconf", "NcSession", "NcSessionLemmas", "NcSegLemmas", "NcExtraLemmas", "DecideLang", "GeneratedSkel", "InteractiveSrcDefs", "SendInputSrc", "BytesLemmas", "ChanTrace", "ChanTraceLemmas", "ChannelLemmas", "PlatformTypes", "Session", "RpcSrc", "DecideLemmas", "ReadUntilSrc", "ChanReadSrc"],
         "rx": True,
         "rule": "the same CLI sessions with the transport reporting end-of-stream / a persistent read error after byte k, or failing a write; the "
                 "model prints every legal outcome of the race between the loss and the operation's consumption of already-queued chunks (the "
@@ -196,7 +196,7 @@ PROPS = {
         "n": {"quick": 60, "thorough": 1500},
         "race": True,
         "compare": "member",
-        "cone": ["Conc", "Close", "CloseDefs", "CloseLemmas", "CloseRun", "GeneratedSkel", "CloseSkel", "CloseSkelOk", "DecideLang", "StdCloseSrc"] + ["CloseShard%02d" % i for i in range(13)],
+        "cone": ["Conc", "Close", "CloseDefs", "CloseLemmas", "CloseRun", "GeneratedSkel", "CloseSkel", "CloseSkelOk", "DecideLang", "StdCloseSrc", "ChanReadSrc"] + ["CloseShard%02d" % i for i in range(13)],
         "diagnose": "From Scrapli Require Import CloseSkel.\nFrom Coq Require Import String List.\nOpen Scope string_scope.\nEval vm_compute in show_failing.\n",
         "kernel_sample": {"quick": 4, "thorough": 12}, "kernel_maxlen": 1500,
         "retry_sigs": r"(C07:leak|C07:hang)",
